@@ -39,7 +39,7 @@ type processedMetric struct {
 	Name         string
 	Attributes   map[string]string
 	TimeUnixNano uint64
-	Value        uint64
+	Value        float64
 }
 
 func ProcessMetricsIngest(ctx *fasthttp.RequestCtx, myid int64) {
@@ -78,11 +78,28 @@ func ingestMetrics(request *collmetricspb.ExportMetricsServiceRequest, myid int6
 	for _, resourceMetrics := range request.ResourceMetrics {
 		for _, scopeMetrics := range resourceMetrics.ScopeMetrics {
 
+			// resource and scope attributes describe every datapoint below them
+			inherited := make(map[string]string)
+			if resourceMetrics.Resource != nil {
+				for k, v := range extractAttributes(resourceMetrics.Resource.Attributes) {
+					inherited[k] = v
+				}
+			}
+			if scopeMetrics.Scope != nil {
+				for k, v := range extractAttributes(scopeMetrics.Scope.Attributes) {
+					inherited[k] = v
+				}
+			}
 			for _, metrics := range scopeMetrics.Metrics {
 				extractedMetrics := processMetric(metrics)
 				for _, metric := range extractedMetrics {
+					for k, v := range inherited {
+						if _, own := metric.Attributes[k]; !own {
+							metric.Attributes[k] = v
+						}
+					}
 					dpCount++
-					data, err := ConvertToOTLPMetricsFormat(metric, int64(metric.TimeUnixNano), float64(metric.Value))
+					data, err := ConvertToOTLPMetricsFormat(metric, int64(metric.TimeUnixNano), metric.Value)
 					if err != nil {
 						numFailedDps++
 						log.Errorf("OLTPMetrics: failed to ConvertToOTLPMetricsFormat data=%+v, err=%v", data, err)
@@ -156,7 +173,7 @@ func processMetric(metric *metricspb.Metric) []processedMetric {
 				Name:         metric.Name,
 				Attributes:   extractAttributes(dataPoint.Attributes),
 				TimeUnixNano: dataPoint.TimeUnixNano,
-				Value:        uint64(dataPoint.GetAsDouble()),
+				Value:        numberValue(dataPoint),
 			})
 		}
 		return extracted
@@ -168,7 +185,7 @@ func processMetric(metric *metricspb.Metric) []processedMetric {
 				Name:         metric.Name,
 				Attributes:   extractAttributes(dataPoint.Attributes),
 				TimeUnixNano: dataPoint.TimeUnixNano,
-				Value:        uint64(dataPoint.GetAsDouble()),
+				Value:        numberValue(dataPoint),
 			})
 		}
 		return extracted
@@ -181,7 +198,7 @@ func processMetric(metric *metricspb.Metric) []processedMetric {
 				Name:         metric.Name,
 				Attributes:   extractAttributes(dataPoint.Attributes),
 				TimeUnixNano: dataPoint.TimeUnixNano,
-				Value:        dataPoint.Count,
+				Value:        float64(dataPoint.Count),
 			})
 		}
 		return extracted
@@ -194,7 +211,7 @@ func processMetric(metric *metricspb.Metric) []processedMetric {
 				Name:         metric.Name,
 				Attributes:   extractAttributes(dataPoint.Attributes),
 				TimeUnixNano: dataPoint.TimeUnixNano,
-				Value:        uint64(dataPoint.Scale),
+				Value:        float64(dataPoint.Scale),
 			})
 		}
 		return extracted
@@ -207,13 +224,21 @@ func processMetric(metric *metricspb.Metric) []processedMetric {
 				Name:         metric.Name,
 				Attributes:   extractAttributes(dataPoint.Attributes),
 				TimeUnixNano: dataPoint.TimeUnixNano,
-				Value:        dataPoint.Count,
+				Value:        float64(dataPoint.Count),
 			})
 		}
 		return extracted
 	}
 
 	return extracted
+}
+
+// a NumberDataPoint carries either a double or an int64
+func numberValue(dataPoint *metricspb.NumberDataPoint) float64 {
+	if _, isInt := dataPoint.Value.(*metricspb.NumberDataPoint_AsInt); isInt {
+		return float64(dataPoint.GetAsInt())
+	}
+	return dataPoint.GetAsDouble()
 }
 
 func ConvertToOTLPMetricsFormat(data processedMetric, timestamp int64, value float64) ([]byte, error) {
